@@ -399,8 +399,9 @@ def oracle_drop(case, pre, post, min_pts, min_iv):
     if len(keep) < min_iv:
         bad.append(("too_few_error", f"{len(keep)} intervals < min_n_intervals {min_iv} but no error"))
     if post["masks"] != [pre["masks"][k] for k in keep]:
-        bad.append(("drop_exactly_small",
-                    f"kept {post['K']} intervals, expected {len(keep)} (counts {counts}, min {min_pts})"))
+        what = "returned masks are not those of the surviving pre-drop intervals" if post["K"] == len(keep) \
+            else f"kept {post['K']} intervals, expected {len(keep)}"
+        bad.append(("drop_exactly_small", f"{what} (pre-drop counts {counts}, min {min_pts})"))
         return bad
     if any(len(m) != len(data) for m in post["masks"]):
         return bad
